@@ -511,6 +511,33 @@ void HistSim::checkRefs() {
       violate("C04:stale-reference", "a live reference (view " + std::string(1, r.view) +
                                          ") no longer designates its value: " + firstDiff(*n, e) +
                                          " [model | through the reference]");
+    // the accessors of the typed handle itself
+    if (r.view == 'a') {
+      if (r.a.isNull() != (n->k != K::Arr) || bool(r.a) != (n->k == K::Arr) || r.a.size() != (n->k == K::Arr ? n->a.size() : 0) ||
+          r.a.nesting() != (n->k == K::Arr ? n->nesting() : 0))
+        violate("C04:stale-reference", "JsonArray handle: isNull()/bool/size()/nesting() differ from the model");
+      size_t k = 0;
+      for (auto it = r.a.begin(); it != r.a.end(); ++it, ++k) {
+        if (k >= n->a.size() || it->isNull() != (n->a[k].k == K::Null) || !(it == it))
+          violate("C04:stale-reference", "JsonArray handle: iterator disagrees with the model at element " + std::to_string(k));
+      }
+      if (n->k == K::Arr && k != n->a.size())
+        violate("C04:stale-reference", "JsonArray handle: iteration ends after " + std::to_string(k) + " elements");
+    } else if (r.view == 'o') {
+      if (r.o.isNull() != (n->k != K::Obj) || bool(r.o) != (n->k == K::Obj) || r.o.size() != (n->k == K::Obj ? n->o.size() : 0) ||
+          r.o.nesting() != (n->k == K::Obj ? n->nesting() : 0))
+        violate("C04:stale-reference", "JsonObject handle: isNull()/bool/size()/nesting() differ from the model");
+      size_t k = 0;
+      for (auto it = r.o.begin(); it != r.o.end(); ++it, ++k) {
+        if (k >= n->o.size() || !(it == it))
+          violate("C04:stale-reference", "JsonObject handle: iterator runs past the model's members");
+        JsonString key = it->key();
+        if (std::string(key.c_str(), key.size()) != n->o[k].first || it->value().isNull() != (n->o[k].second.k == K::Null))
+          violate("C04:stale-reference", "JsonObject handle: iterator disagrees with the model at member " + std::to_string(k));
+      }
+      if (n->k == K::Obj && k != n->o.size())
+        violate("C04:stale-reference", "JsonObject handle: iteration ends after " + std::to_string(k) + " members");
+    }
   }
 }
 
@@ -531,10 +558,31 @@ void HistSim::endOp(Judge& j, const Op& op, size_t ix) {
       ds.leaky = true;  // a failed allocation (injected, or a capacity limit) may strand slots and strings
     relaxed = hadFault || ds.ovf || ovfNow;
     if (opt.mode == "free" || opt.mode == "twin" || opt.mode == "enum") {
-      if (ovfNow)
-        violate("C19:spurious-overflow", "overflowed() became true although no allocation failed and no limit is near (op " +
-                                             op.text().substr(0, 120) + ")");
-      relaxed = false;
+      bool tolerated = false;
+      if (ovfNow) {
+        // known finding (DESIGN §6, defect 13): shrinkToFit() cuts the last pool down to its usage, the ids of the
+        // slots cut off are never handed out again, and once every pool index is taken the document is "full"
+        // although far fewer than NULL_SLOT slots exist. Recognised by that very state.
+        verif::PoolGeometry g = verif::Inspector::geometry(*ds.doc);
+        bool idsBurnt = g.pools >= g.maxPools && g.deadPools == 0 && g.usedSlots == g.slotCapacity &&
+                        g.slotCapacity < size_t(verif::Inspector::NULLSLOT);
+        static const char* kSig = "ovf:shrink-burnt-pool-ids";
+        if (idsBurnt && opt.skipKnown && opt.known.count(kSig)) {
+          count("known.shrink_burnt_pool_ids");
+          tolerated = true;
+          obsInvalid = true;  // this build met a (spurious) limit: its transcript is not comparable across builds
+        } else {
+          violate("C19:spurious-overflow",
+                  std::string("overflowed() became true although no allocation failed and no limit is near") +
+                      (idsBurnt ? std::string(" [signature ") + kSig + ": " + std::to_string(g.pools) + " of " +
+                                      std::to_string(g.maxPools) + " pool indexes in use, all full, holding " +
+                                      std::to_string(g.slotCapacity) + " slots]"
+                                : std::string()) +
+                      " (op " + op.text().substr(0, 120) + ")");
+        }
+      }
+      if (!tolerated)
+        relaxed = false;
     }
     if (relaxed) {
       WalkOpts wo;
